@@ -106,14 +106,14 @@ def main(argv=None):
     unconf = [u for r in results for u in r['unconfirmed']]
     valmis = [(r['oid'], r['val_mismatch']) for r in results if r.get('val_mismatch')]
     inconc = [e for r in results for e in r['inconclusive']]
-    for v, path in viol:
+    for v, path in viol[:25]:
         print(f"VIOLATION property={prop} replay={path}")
         print(f"  claim={v['claim']} info={v['info']}")
     if viol:
         rc = 1
-    for e in herr:
+    for e in herr[:20]:
         print(f'HARNESS-ERROR {e}')
-    for u in unconf:
+    for u in unconf[:8]:
         print(f"UNCONFIRMED property={prop} claim={u['claim']} (solver model did not reproduce on the real code) env={json.dumps(u['env'])[:400]}")
     for oid, vm in valmis:
         print(f'ENCODING-MISMATCH {oid}: {json.dumps(vm, default=str)[:600]}')
